@@ -33,12 +33,13 @@ def run(ctx):
                       "Parameter.__setattr__ stores the slot before _trigger_event", floor=3)
     ctx.rule("R03.b", "both value-dispatch loops iterate sorted(watchers, key=precedence) (stable: registration order within a precedence)", floor=2)
     ctx.rule("R03.g", "assignments made by a queued callback are dispatched before the outer assignment returns: the flush loops until no event is left", floor=1)
-    ctx.rule("R03.c", "Comparator: numbers/str/None/dates compare with operator.eq, containers recurse, and every fall-through return on a mismatch is the literal False", floor=6)
+    ctx.rule("R03.c", "Comparator: numbers/str/None/dates compare with operator.eq, is_equal routes containers to the recursive comparers and falls through to False; compare_iterator/compare_mapping, interpreted abstractly on 24 container pairs, answer True iff same type, same size/key set and pairwise-equal elements", floor=6)
     ctx.rule("R03.d", "_update_event_type: 'triggered' if triggered else 'changed' if onlychanged else 'set' (4 abstract cases, exhaustive)", floor=1)
     ctx.rule("R03.e", "_register_watcher appends to / removes from the table paths the setter and _trigger_event read", floor=3)
     ctx.rule("R03.f", "_call_watcher: a watcher is skipped iff (not TRIGGER and onlychanged and not changed); otherwise queued iff batching else executed (32 abstract cases, exhaustive)", floor=1)
     ctx.rule("R03.h", "flush model (abstract interpretation on small queues): every queued watcher runs exactly once in (precedence, queue position) order with the last event per watched parameter; cascaded events are delivered in a further round", floor=1)
     ctx.rule("R03.m", "setter model: Parameter.__set__ interpreted abstractly on every combination (576) of route x constant/readonly x validation outcome x identity x reference mode x watchers x batching agrees with the specification of this property (see checks/setter_model.py)", floor=1)
+    ctx.rule("R03.u", "update model: Parameters._update (behind update/trigger) flushes exactly once when outermost, never inside an enclosing batch, and only after the batching flag is lowered again, so that watchers called by the flush dispatch their own assignments depth-first", floor=1)
     ctx.not_decided += ["exactly-once delivery counts, depth-first cascades and queued semantics over all programs (need an executable reference semantics)"]
 
     f = ctx.repo.method(PARAMETER, "__set__")
@@ -149,17 +150,8 @@ def run(ctx):
         ctx.fail("R03.c", ie, ie.node, "is_equal no longer routes list/set/tuple and dict to the recursive comparers")
     if not bad:
         ctx.ok("R03.c", ie, ie.node, "all returns are eq(...), a recursive comparer or False; final fall-through is False")
-    for m in ("compare_iterator", "compare_mapping"):
-        g = ctx.repo.method(P + "Comparator", m)
-        rets = [st for st in ast.walk(g.node) if isinstance(st, ast.Return)]
-        trues = [r for r in rets if isinstance(r.value, ast.Constant) and r.value.value is True]
-        others = [r for r in rets if r not in trues and not (isinstance(r.value, ast.Constant) and r.value.value is False)]
-        final_true = isinstance(g.node.body[-1], ast.Return) and g.node.body[-1] in trues
-        calls_rec = any(isinstance(c, ast.Call) and norm(c.func) == "cls.is_equal" for c in ast.walk(g.node))
-        if len(trues) == 1 and final_true and not others and len(rets) >= 3 and calls_rec:
-            ctx.ok("R03.c", g, g.node, "single `return True` after the element loop; every mismatch returns False; elements compared with cls.is_equal")
-        else:
-            ctx.fail("R03.c", g, g.node, "Comparator.%s can report a mismatch as equal (return discipline: %d True, %d non-literal, recursion %s)" % (m, len(trues), len(others), calls_rec))
+    from checks.shared import comparator_model
+    comparator_model(ctx, "R03.c")
 
     # ------------------------------------------------------------- R03.d
     ue = ctx.repo.func(P + "Parameters._update_event_type")
@@ -259,6 +251,16 @@ def run(ctx):
         want = "skip" if skip else ("queue" if batch else "execute")
         if got != want:
             bad.append((trig_, oc, changed, batch, got, want))
+    # a separately registered watcher with equal fields is already queued: this one must be queued as well
+    for pq in ("twin", "other"):
+        got, ns, w, _ = call_watcher_outcome(ctx, False, False, True, True, prequeued=pq)
+        n += 1
+        sw = ns.attrs["_state_watchers"]
+        if not (got == "queue" and len(sw) == 2 and sw[-1] is w):
+            ctx.fail("R03.f", cw, cw.node, "while batching, a watcher is not queued because %s is already in the queue: that registration "
+                     "is never called for this change" % ("a separate registration with equal fields" if pq == "twin" else "another watcher"),
+                     key=cw.qualname + "::not-queued-behind-" + pq,
+                     input="obj.param.watch(cb, 'x'); obj.param.watch(cb, 'x'); obj.param.update(x=1) -> cb must run twice")
     ctx.abstract_cases += n
     ctx.exhaustive = True
     if bad:
@@ -274,3 +276,5 @@ def run(ctx):
     # model-level rule, run last (see DESIGN §10)
     from checks import setter_model
     setter_model.report(ctx, "C03", "R03.m")
+    from checks import update_model
+    update_model.report(ctx, "C03", "R03.u")
